@@ -238,7 +238,9 @@ def gen_enum_case(rng, k, derive_trait, with_flags=False):
     nvar = rng.randrange(1, 4)
     rename = rng.choice([None, None, "snake_case", "UPPERCASE", "kebab-case"]) if derive_trait == "Display" else None
     mode = rng.choice(["none", "default", "wrap_ph", "wrap_ph", "wrap_arg", "wrap_twice", "bare_variant"])
-    shared_lit = {"none": None, "default": "dflt", "wrap_ph": "<{_variant}>", "wrap_arg": "[{}]",
+    if derive_trait == "Debug":
+        mode = "none"            # an enum-level #[debug("...")] is rejected (C07); variant-level ones are C02/C05's
+    shared_lit = {"none": None, "default": rng.choice(["dflt", "dflt", "{{unknown}}", "set: {{}}", "}}a{{", "é {{x}} "]), "wrap_ph": "<{_variant}>", "wrap_arg": "[{}]",
                   "wrap_twice": "{_variant}/{0}", "bare_variant": "{_variant}"}[mode]
     shared_args = {"wrap_arg": ["_variant"], "wrap_twice": ["_variant"]}.get(mode, [])
     variants = []
@@ -259,7 +261,7 @@ def gen_enum_case(rng, k, derive_trait, with_flags=False):
         own = None
         need_own = len(fs) > 1 or (len(fs) == 0 and derive_trait != "Display") or \
             (len(fs) == 1 and derive_trait not in TYPES[fs[0]["t"]][2])
-        if need_own or rng.random() < 0.4:
+        if need_own or derive_trait == "Debug" or rng.random() < 0.4:
             if fs:
                 lit, args, info = gen_literal(rng, kind, fs, derive_trait, bare_p=0.25, allow_self=False)
             else:
@@ -317,7 +319,7 @@ def gen_enum_case(rng, k, derive_trait, with_flags=False):
                 expected = "{ let _variant = %s; %s format!(%s) }" % (
                     vt, binds, ", ".join([F.rust_lit(shared_lit)] + shared_args))
         elif mode == "default":
-            expected = vt if v["own"] else "String::from(\"dflt\")"
+            expected = vt if v["own"] else "format!(%s)" % F.rust_lit(shared_lit)
         else:
             expected = vt
         flag_obs = []
